@@ -1,6 +1,7 @@
 package matchcheck
 
 import (
+	"encoding/json"
 	"fmt"
 	"sort"
 	"strings"
@@ -30,6 +31,46 @@ var invalidPatterns = []interface{}{
 	[]interface{}{"?", "?x", 1.0},
 	map[string]interface{}{"?k": 1.0, "b": 2.0},
 	map[string]interface{}{"a": map[string]interface{}{"?k": "?v", "c": "?w"}},
+	// values of Go types the matcher does not know (see goValue)
+	map[string]interface{}{"$go": "uint"},
+	map[string]interface{}{"$go": "[]string"},
+	map[string]interface{}{"$go": "json.Number"},
+	map[string]interface{}{"$go": "int8"},
+	map[string]interface{}{"$go": "struct"},
+}
+
+// goValue materialises the {"$go": T} markers of a case (cases are
+// JSON) into values of Go types that are not JSON-decoder types.
+func goValue(v interface{}) interface{} {
+	switch vv := v.(type) {
+	case map[string]interface{}:
+		if t, ok := vv["$go"].(string); ok && len(vv) == 1 {
+			switch t {
+			case "uint":
+				return uint(7)
+			case "[]string":
+				return []string{"a", "b"}
+			case "json.Number":
+				return json.Number("1")
+			case "int8":
+				return int8(3)
+			default:
+				return struct{ A int }{1}
+			}
+		}
+		m := make(map[string]interface{}, len(vv))
+		for k, x := range vv {
+			m[k] = goValue(x)
+		}
+		return m
+	case []interface{}:
+		a := make([]interface{}, len(vv))
+		for i, x := range vv {
+			a[i] = goValue(x)
+		}
+		return a
+	}
+	return v
 }
 
 func genPure(t *rapid.T) PureCase {
@@ -94,7 +135,7 @@ func genPure1(t *rapid.T) PureCase {
 	case 2:
 		// invalid at one key, merely non-matching at another
 		inv := jsongen.Copy(rapid.SampledFrom(invalidPatterns).Draw(t, "inv"))
-		p := map[string]interface{}{"a": inv}
+		p := map[string]interface{}{rapid.SampledFrom([]string{"a", "a", "z", "bb"}).Draw(t, "invkey"): inv}
 		m := map[string]interface{}{"a": jsongen.Value(t, vo, "ma")}
 		for _, k := range []string{"b", "c"}[:rapid.IntRange(1, 2).Draw(t, "nk")] {
 			c := jsongen.Scalar(t, vo, "c"+k)
@@ -243,7 +284,7 @@ func checkPure(c PureCase) (v ev.Verdict) {
 	evals := 0
 	for b := 0; b < builds; b++ {
 		perm := func(n int) []int { return nthPerm(n, b) }
-		p := jsongen.Rebuild(c.Pattern, perm)
+		p := goValue(jsongen.Rebuild(c.Pattern, perm))
 		m := jsongen.Rebuild(c.Message, perm)
 		var bs match.Bindings
 		if c.Bindings != nil {
